@@ -506,6 +506,77 @@ func checkMemReader(c *Ctx, rule string, ri *readerInfo) map[token.Pos]bool {
 						} else {
 							definite, form = true, "forward -= size of the last rune of something else than text[begin:forward] (a retraction can pass the beginning of the lexeme)"
 						}
+					} else if wf := fieldOfLoad(bo.Y, recv); wf >= 0 && wf != roles.begin && wf != roles.forward && wf != roles.text {
+						// forward -= width, a remembered step: every advance of forward must record the very amount it moved by,
+						// in the same block; else a retraction after that advance steps back by a stale amount.
+						advances, paired, unclear := 0, 0, 0
+						var stale *ssa.Store
+						for _, w2 := range writes {
+							if w2.field != roles.forward || w2.fn == ri.ctorFn || w2.st == w.st || len(w2.fn.Params) == 0 {
+								continue
+							}
+							b2, isB2 := w2.st.Val.(*ssa.BinOp)
+							if !isB2 || b2.Op != token.ADD || !loadOfField(b2.X, w2.fn.Params[0], roles.forward) {
+								if isB2 && b2.Op == token.SUB {
+									continue
+								}
+								unclear++
+								continue
+							}
+							advances++
+							found, sawOther := false, false
+							for _, w3 := range writes {
+								if w3.field != wf || w3.fn != w2.fn {
+									continue
+								}
+								if w3.st.Block() != w2.st.Block() {
+									continue
+								}
+								k1, c1 := w3.st.Val.(*ssa.Const)
+								k2, c2 := b2.Y.(*ssa.Const)
+								if w3.st.Val == b2.Y || (c1 && c2 && k1.Value != nil && k2.Value != nil && k1.Int64() == k2.Int64()) {
+									found = true
+								} else {
+									sawOther = true
+								}
+							}
+							switch {
+							case found && !sawOther:
+								paired++
+							case sawOther:
+								unclear++
+							default:
+								// no store of the remembered step on this advance: is there one anywhere else in the function that
+								// every path to the advance passes (a dominating block)? then it is a different shape, not a stale one
+								dom := false
+								for _, w3 := range writes {
+									if w3.field == wf && w3.fn == w2.fn && w3.st.Block() != w2.st.Block() && (w3.st.Block().Dominates(w2.st.Block()) || w2.st.Block().Dominates(w3.st.Block())) {
+										dom = true
+									}
+								}
+								if dom {
+									unclear++
+								} else if stale == nil {
+									stale = w2.st
+								}
+							}
+						}
+						switch {
+						case stale != nil:
+							definite, form = true, fmt.Sprintf("forward -= %s, but %s advances forward (%s) without recording that step in %s: a retraction after that advance steps back by the amount of an earlier one (a multi-byte character after a one-byte one is retracted by one byte: the lexeme ends inside the character)", fname(wf), shortFn(stale.Parent()), c.rel(stale.Pos()), fname(wf))
+						case advances > 0 && paired == advances && unclear == 0:
+							// the remembered step is right after an advance; that a retraction is only asked for right after an
+							// advance (once, and not across a Skip/Lexeme) is the scanner's protocol (R5.4), so it is zeroed or the rule cannot tell
+							zeroed := 0
+							for _, w3 := range writes {
+								if w3.field == wf && w3.fn != ri.ctorFn && isConstInt(w3.st.Val, 0) {
+									zeroed++
+								}
+							}
+							if zeroed >= 2 {
+								ok, form = true, fmt.Sprintf("forward -= %s, the step recorded by every advance and cleared by the retraction and by the commit", fname(wf))
+							}
+						}
 					}
 				}
 			}
@@ -554,6 +625,25 @@ func checkMemReader(c *Ctx, rule string, ri *readerInfo) map[token.Pos]bool {
 		recv := ssa.Value(f.Params[0])
 		for _, b := range f.Blocks {
 			for _, in := range b.Instrs {
+				// text[forward] where forward != len(text) is known: in bounds by I
+				if ia, isIdx := in.(*ssa.IndexAddr); isIdx && invariantHolds && loadOfField(ia.X, recv, roles.text) && loadOfField(ia.Index, recv, roles.forward) {
+					for _, cd := range controlConds(b) {
+						cmp, isB := cd.v.(*ssa.BinOp)
+						if !isB || !loadOfField(cmp.X, recv, roles.forward) {
+							continue
+						}
+						lc, isC := cmp.Y.(*ssa.Call)
+						if !isC {
+							continue
+						}
+						if bi, isBi := lc.Call.Value.(*ssa.Builtin); !isBi || bi.Name() != "len" || !loadOfField(lc.Call.Args[0], recv, roles.text) {
+							continue
+						}
+						if (cmp.Op == token.EQL && !cd.pol) || (cmp.Op == token.NEQ && cd.pol) || (cmp.Op == token.LSS && cd.pol) || (cmp.Op == token.GEQ && !cd.pol) {
+							proved[ia.Pos()] = true
+						}
+					}
+				}
 				sl, ok := in.(*ssa.Slice)
 				if !ok || !loadOfField(sl.X, recv, roles.text) {
 					continue
